@@ -25,6 +25,7 @@ func runC19(p *Prog, r *Report) {
 	c19Symmetry(p, r)
 	c19Inheritance(p, r)
 	c19QueueLengths(p, r)
+	importFrom(p, r, "C19.10/ttl-takes-effect", "an accepted OptionTTL value N admits exactly the hop counts C09 states for N (the extracted hop-guard normal forms, shared with C09.1): the option takes effect as documented, on raw and cooked sockets alike", func(t *Report, rule string) { runC09(p, t) }, "rule=C09.1/hop-normal-form")
 	c19OptionsReadAtUse(p, r, "C19.9/options-read-at-use")
 	r.Describe("C19.8/queue-swap-wakes", "a queue-length option takes effect for calls already blocked: the step that installs the new queue closes the object's sizeQ")
 	queueSwapWakes(p, r, "C19.8/queue-swap-wakes", func(rel string) bool { return strings.HasPrefix(rel, "protocol/") })
